@@ -95,6 +95,12 @@ def f_norms(xs, k):
     return xs
 
 
+def f_unroll(a, b):
+    axes = [x * 2 + 1 for x in (a, b)]
+    hi, lo = [y + a for y in (b, a)]
+    return axes[0] * 10 + axes[1] + hi - lo
+
+
 R = T.Rules13(
     expr=[("enumerate($x)", "((List.zipIdx {x}).map (fun p => ((p.2 : Int), p.1)))"),
           ("zip($a, $b)", "(List.zip {a} {b})"), ("list($x)", "{x}"),
@@ -121,6 +127,7 @@ CASES = [
     (f_inlined, "(xs : List Int) (k : Int) : Option (List Int)", {"xs": "xs", "k": "k"}),
     (f_alias_arms, "(xs : List Int) (flag : Bool) : Option (List Int)", {"xs": "xs", "flag": "flag"}),
     (f_norms, "(xs : List Int) (k : Int) : Option (List Int)", {"xs": "xs", "k": "k"}),
+    (f_unroll, "(a b : Int) : Option Int", {"a": "a", "b": "b"}),
 ]
 LISTS = [[], [1], [2, 4], [3, 1, 4, 1, 5], [6, 2, 9, 0, 7], [-1, 3]]
 KS = [0, 2, 5]
@@ -142,6 +149,8 @@ def args_of(fn):
         return [(a, k) for a in LISTS for k in KS]
     if n in ("f_alias", "f_alias_dropped"):
         return [(a, f) for a in LISTS for f in (True, False)]
+    if n == "f_unroll":
+        return [(a, b) for a in (0, 3, -2) for b in (1, 5)]
     if n == "f_monadic_tuple":
         return [(a, b) for a in (0, 7, 23) for b in (0, 1, 4)]
     return [(m, k) for m in ("constant", "nearest") for k in KS]
